@@ -689,6 +689,21 @@ def lifecycle():
     emit_nat("dealerProcessorRequeuesAtFront", 1 if re.search(r"Err\(\(returned, _\)\) => \{.*?self\.pending_queue\.lock\(\)\.await\.push_front\(returned\);", dl, re.S) else 0)
     emit_nat("dealerBacklogCountsPushAndHandOver", 1 if re.search(r"queue_guard\.push_back\(full_message_parts\);\s*self\.pending_backlog\.fetch_add\(1", dl)
              and re.search(r"Ok\(\(\)\) => \{\s*self\.pending_backlog\.fetch_sub\(1", dl) else 0)
+    # frame-by-frame send() transactions (DEALER, ROUTER): nothing reaches the peer before the last frame, and the
+    # transaction is emptied BEFORE the hand-over of the complete message is awaited (a dropped future runs no code)
+    dsend = fn_body("core/src/socket/dealer_socket.rs", "send", within="impl ISocket for DealerSocket")
+    more_branch = dsend[dsend.find("if msg.is_more() {"):dsend.find("} else {\n      let (parts_to_send_app_level")] if "if msg.is_more() {" in dsend else ".await"
+    emit_nat("dealerTxBuffersUntilLast", 1 if "parts.push(msg);" in more_branch and ".await" not in more_branch else 0)
+    emit_nat("dealerTxClosedBeforeAwait", 1 if re.search(
+        r"match std::mem::replace\(&mut \*transaction_guard, DealerSendTransaction::Idle\) \{\s*DealerSendTransaction::Idle => \{[^}]*\}\s*"
+        r"DealerSendTransaction::Buffering \{[^}]*\} => \{[^}]*\}\s*\};\s*drop\(transaction_guard\);\s*let full_message_for_wire =[^;]*;\s*"
+        r"let result = self\.send_logical_message\(full_message_for_wire\)\.await;", dsend) and dsend.count(".await") == 2 else 0)
+    rsend = fn_body("core/src/socket/router_socket.rs", "send", within="impl ISocket for RouterSocket")
+    emit_nat("routerTxBuffersUntilLast", 1 if "conn_iface.send_message(" not in rsend and "conn_iface.send(" not in rsend
+             and re.search(r"\.send_multipart\(FrameBatch::from\(active_info\.frames\)\)", rsend)
+             and re.search(r"active_info\.frames\.push\(msg\);\s*if !is_last_user_part \{\s*return Ok\(\(\)\);", rsend) else 0)
+    m_take = re.search(r"if let Some\(active_info\) = current_send_target_guard\.as_mut\(\) \{(.*?)let Some\(active_info\) = current_send_target_guard\.take\(\) else", rsend, re.S)
+    emit_nat("routerTxClosedBeforeAwait", 1 if m_take and ".await" not in m_take.group(1) else 0)
     emit_nat("dealerPendingBoundedBySndhwm", 1 if re.search(r"if queue_guard\.len\(\) < global_sndhwm \{", dl) else 0)
     # multipart stash: what happens to the unread frames of a message on deregister / recv_multipart
     ai = strip_comments(src("core/src/socket/patterns/anonymous_ingress.rs"))
